@@ -20,13 +20,15 @@ class InstrumentedFileIO(io.FileIO):
         self._shim = shim
         self._vpath = path
         self._logged_close = False
+        self._h = shim.new_handle()
+        shim.log[-1]["h"] = self._h  # the 'open' record announced just before this constructor
         super().__init__(file, mode, closefd=closefd)
 
     def write(self, b):
         data = bytes(b)
         if self._shim.write_chunk and len(data) > self._shim.write_chunk:
             data = data[: self._shim.write_chunk]
-        self._shim.op("write", self._vpath, data=data, offset=self.tell())
+        self._shim.op("write", self._vpath, data=data, offset=self.tell(), h=self._h)
         return super().write(data)
 
     def readinto(self, b):
@@ -52,6 +54,11 @@ class Shim:
         self.log = []
         self.fdpath = {}
         self._orig = None
+        self._nh = 0
+
+    def new_handle(self):
+        self._nh += 1
+        return self._nh
 
     # ------------------------------------------------------------------ bookkeeping
     def mine(self, path):
@@ -176,32 +183,57 @@ class Shim:
 
 # ---------------------------------------------------------------------- file-system model
 def apply_ops(files, ops):
-    """Boring reference model of the directory: dict relpath -> bytes.  Process-crash semantics:
-    every completed system call is durable; user-space buffers are not modelled (they are lost)."""
+    """Boring reference model of the directory.  Names point at inodes and open handles keep writing to
+    their inode after a rename (POSIX).  Process-crash semantics: every completed system call is durable;
+    user-space buffers are not modelled (they are lost).  `files` (dict relpath -> bytes) is the start
+    state; returns the resulting dict."""
+    inodes = {}
+    names = {}
+    handles = {}
+    for i, (p, data) in enumerate(files.items()):
+        inodes[-1 - i] = data
+        names[p] = -1 - i
+    nxt = [0]
+
+    def new_inode():
+        nxt[0] += 1
+        inodes[nxt[0]] = b""
+        return nxt[0]
+
     for rec in ops:
         k, p = rec["op"], rec["path"]
         if k == "open":
-            if rec["mode"][0] == "w" and not rec.get("by_fd"):
-                files[p] = b""
-            elif rec["mode"][0] in "ax" and not rec.get("by_fd"):
-                files.setdefault(p, b"")
+            if not rec.get("by_fd"):
+                if rec["mode"][0] == "w":
+                    if p not in names:
+                        names[p] = new_inode()
+                    inodes[names[p]] = b""
+                elif rec["mode"][0] in "ax" and p not in names:
+                    names[p] = new_inode()
+            if "h" in rec and p in names:
+                handles[rec["h"]] = names[p]
         elif k == "os_open":
             fl = rec["flags"]
-            if fl & os.O_CREAT:
-                files.setdefault(p, b"")
-            if fl & os.O_TRUNC:
-                files[p] = b""
+            if fl & os.O_CREAT and p not in names:
+                names[p] = new_inode()
+            if fl & os.O_TRUNC and p in names:
+                inodes[names[p]] = b""
         elif k == "write":
-            cur = files.get(p, b"")
+            ino = handles.get(rec.get("h"), names.get(p))
+            if ino is None:
+                continue
+            cur = inodes[ino]
             off, data = rec["offset"], rec["data"]
             if len(cur) < off:
                 cur = cur + b"\0" * (off - len(cur))
-            files[p] = cur[:off] + data + cur[off + len(data):]
+            inodes[ino] = cur[:off] + data + cur[off + len(data):]
         elif k == "replace":
-            if p in files:
-                files[rec["dst"]] = files.pop(p)
+            if p in names:
+                names[rec["dst"]] = names.pop(p)
         elif k == "unlink":
-            files.pop(p, None)
+            names.pop(p, None)
+    files.clear()
+    files.update({p: inodes[i] for p, i in names.items()})
     return files
 
 
@@ -210,16 +242,16 @@ def crash_states(log):
     byte cut of its payload.  Yields (label, files)."""
     seen = set()
     for i in range(len(log) + 1):
-        base = apply_ops({}, log[:i])
         cuts = [None]
         if i < len(log) and log[i]["op"] == "write":
             cuts += list(range(1, len(log[i]["data"])))
         for c in cuts:
-            files = dict(base)
+            ops = list(log[:i])
             if c is not None:
                 rec = dict(log[i])
                 rec["data"] = rec["data"][:c]
-                apply_ops(files, [rec])
+                ops.append(rec)
+            files = apply_ops({}, ops)
             key = tuple(sorted(files.items()))
             if key in seen:
                 continue
